@@ -24,6 +24,9 @@ HARNESSES = {
     'charset_tables_match_reference': dict(
         props=['C20'],
         what='LAT1_MAP[i]==i, VT100_MAP[i]==reference, IBMPC_MAP[i]==reference for a symbolic index i in 0..=255 (768 entries; references generated independently, kani/src/ref_tables.rs)'),
+    'control_tables': dict(
+        props=['C03', 'C19', 'C20', 'C01'],
+        what='src/control.rs: BASIC, ALLOWED_IN_CSI, OSC_TERMINATORS (= BEL, ESC \\, U+009C) and the one-character constants ESC/CSI/OSC/DECALN/SI/SO/SP/GREATER/CAN/SUB have the values the recogniser proof assumes'),
     'mode_constants': dict(
         props=['C12'],
         what='LNM=20, IRM=4, DECTCEM=25<<5, DECSCNM=5<<5, DECOM=6<<5, DECAWM=7<<5, DECCOLM=3<<5'),
